@@ -71,6 +71,27 @@ def main():
                 ss[0] = rnd.choice([Fr(0), Fr(1), ss[0]])
                 add(rnd.choice(["evaluate_multi", "Curve.evaluate_multi", "Curve.evaluate"]), nodes, ss, "T")
 
+        # (d) every public entry point at every low degree (where special-cased fast paths would live), binary64
+        #     nets of mixed magnitude, parameter vectors that always contain 0, 1 and neighbours of 1
+        import math
+        routes = ["evaluate_multi", "evaluate_multi_barycentric", "Curve.evaluate_multi", "Curve.evaluate"]
+        for n in list(range(1, 9)) + ([54, 55, 56] if not thorough else list(range(9, 81))):
+            for routine in routes:
+                dim = rnd.choice([1, 2, 3, 4])
+                mags = [rnd.choice([-30, -3, 0, 0, 3, 53]) for _ in range(n + 1)]
+                nodes = [[Fr(rnd.uniform(-1, 1) * 2.0 ** mags[j]) for j in range(n + 1)] for _ in range(dim)]
+                ss = [Fr(0), Fr(1), Fr(math.nextafter(1.0, 0.0)), Fr(math.nextafter(0.0, 1.0)), Fr(2.0 ** -30), G.float_param(rnd, 0.0, 1.0), G.float_param(rnd)]
+                if n > 12:
+                    ss = ss[:3] + [Fr(rnd.randint(0, 4096), 4096)]
+                add(routine, nodes, ss, "T")
+
+        # (e) long parameter vectors (the implementations work on whole vectors; block / tail handling)
+        for n in (2, 7, 54, 55, 56, 61):
+            for count in (257, 300, 1000) if (thorough or n in (7, 55, 56)) else (300,):
+                nodes = G.float_net(rnd, rnd.choice([1, 2]), n + 1, 0)
+                ss = [Fr(rnd.randint(0, 4096), 4096) for _ in range(count - 2)] + [Fr(0), Fr(1)]
+                add(rnd.choice(["evaluate_multi", "Curve.evaluate_multi"]), nodes, ss, "T")
+
     drv = C.Driver()
     for routine, nodes, ss, regime in cases:
         drv.ask("evalmulti", thr, nodes, ss)
